@@ -464,6 +464,9 @@ def check_precision(prog, rep, m):
         for c in bcalls:
             n += 1
             ok, why = last_is_max(f, pm, c, _arg_of(prog, f, m, c, 1), mxname)
+            if not okm and ok:
+                # the maximum written in place (`bins[-1] = np.max(data[np.isfinite(data)])`): accepted by last_is_max itself
+                okm = any(re.search(r'(nan)?max\(', norm(x_)) for x_ in ast.walk(f.node) if isinstance(x_, ast.Call) and short(x_) in ('max', 'nanmax'))
             rep.add('K3', f, label, '%s: last break == max_data when binned' % norm(c)[:80], c.lineno, ok and okm,
                     'the last break of the vector handed to the binning kernel must be the exact maximum of the finite cells '
                     '(accumulated rounding of min + i*width, or a sample that misses the maximum, leaves the maximum cell '
@@ -510,7 +513,27 @@ def last_is_max(f, pm, call, barg, mxname='max_data'):
     """(ok, why): on every path to the call, the most recent statement touching the break vector forces its last
     element to max_data: `v[-1] = max_data` or `v = concatenate([..., max_data.reshape(1)])`; aliases are followed,
     if/else branches are followed separately; a slice / rebuild of the vector in between (or at the call) loses it."""
+    def is_max(e):
+        t_ = norm(e).replace(' ', '')
+        if t_ == mxname:
+            return True
+        mo_ = re.fullmatch(r'(np|numpy)\.(nan)?max\((\w+)\[(np|numpy)\.isfinite\((\w+)\)\]\)', t_)
+        return bool(mo_ and mo_.group(3) == mo_.group(5)) or bool(re.fullmatch(r'module\.nanmax\(\w+\)', t_))
+
+    def concat_forces_max(v):
+        if not (isinstance(v, ast.Call) and short(v) == 'concatenate' and v.args and isinstance(v.args[0], (ast.List, ast.Tuple)) and v.args[0].elts):
+            return False
+        last = v.args[0].elts[-1]
+        if isinstance(last, ast.Call) and isinstance(last.func, ast.Attribute) and last.func.attr == 'reshape' and norm(last.args[0]) == '1' if isinstance(last, ast.Call) and last.args else False:
+            return is_max(last.func.value)
+        if isinstance(last, ast.List) and len(last.elts) == 1:
+            return is_max(last.elts[0])
+        if isinstance(last, ast.Call) and short(last) == 'array' and last.args and isinstance(last.args[0], ast.List) and len(last.args[0].elts) == 1:
+            return is_max(last.args[0].elts[0])
+        return False
     if not isinstance(barg, ast.Name):
+        if concat_forces_max(barg):
+            return True, ''          # the vector is built at the call with the maximum as its last element
         return False, 'the vector is transformed at the call (%s)' % norm(barg)
 
     def touches(s, name):
@@ -534,7 +557,7 @@ def last_is_max(f, pm, call, barg, mxname='max_data'):
                     continue
                 rest = [blk[:si]] + stmts[bi + 1:]
                 if isinstance(s, ast.Assign) and isinstance(s.targets[0], ast.Subscript) and norm(s.targets[0].value) == name:
-                    if norm(s.targets[0].slice) == '-1' and norm(s.value) == mxname:
+                    if norm(s.targets[0].slice) == '-1' and is_max(s.value):
                         return True, ''
                     if norm(s.targets[0].slice) != '-1' and isinstance(s.targets[0].slice, ast.Constant):
                         continue        # another single element: the last one is untouched by it
@@ -543,8 +566,7 @@ def last_is_max(f, pm, call, barg, mxname='max_data'):
                     v = s.value
                     if isinstance(v, ast.Name):
                         return scan(rest, v.id) or (False, 'nothing forces %s[-1] = max_data' % v.id)
-                    if isinstance(v, ast.Call) and short(v) == 'concatenate' and v.args and isinstance(v.args[0], (ast.List, ast.Tuple)) \
-                            and v.args[0].elts and norm(v.args[0].elts[-1]).replace(' ', '') in ('%s.reshape(1)' % mxname, '[%s]' % mxname, 'np.array([%s])' % mxname):
+                    if concat_forces_max(v):
                         return True, ''
                     return False, '%s is rebuilt by `%s` after the maximum was forced (or never forced)' % (name, norm(s)[:80])
                 if isinstance(s, ast.If):
